@@ -43,6 +43,27 @@ def strata(n, rng, count):
     return out
 
 
+def corrupted(L, rng, per_cfg):
+    """single-bit corruptions of VALID inputs: the graph state of a table line (literal graph form, on that line's connectivity) or a locally rotated member
+    with exactly one matrix bit flipped - almost always a non-stabilizer that is one bit away from something the pipeline handles routinely"""
+    out = []
+    for (n, conn) in impl.SUPPORTED:
+        for _ in range(per_cfg):
+            i = rng.randrange(impl.NUM_CLASSES[n])
+            try:
+                g = int(L.circuit_lookup.stabilizer_circuit_lookup(n, conn, i).graph_id)
+            except Exception:
+                continue
+            codes = impl.graph_gens(n, g)
+            if rng.random() < 0.4:
+                codes = impl.apply_gates_codes(impl.random_local_layer(n, rng, paulis=False), codes)
+            j, q = rng.randrange(n), rng.randrange(n)
+            codes = list(codes)
+            codes[j] ^= (1 << q) if rng.random() < 0.3 else (256 << q)
+            out.append((n, conn, codes))
+    return out
+
+
 def run(tier):
     ck = core.Check("C08", tier)
     quick = tier == "quick"
@@ -78,6 +99,9 @@ def run(tier):
         for codes in strata(n, rng, 600 if quick else 6000):
             for api in ("prep", "readout"):
                 jobs.append({"n": n, "codes": codes, "fmt": "matrices" if rng.random() < 0.7 else "strings", "api": api, "conn": rng.choice(impl.conns(n))})
+    for (n, conn, codes) in corrupted(impl.lib(), rng, 150 if quick else 1500):
+        for api in ("prep", "readout"):
+            jobs.append({"n": n, "codes": codes, "fmt": "matrices", "api": api, "conn": conn})
     core.dbg("request jobs", len(jobs))
     recs = par.pmap(workers.request, jobs)
     for r in recs:      # spec -> code: the builder model's own validity verdict
